@@ -3,7 +3,7 @@
    booleans (true = masked); [rectb H W] is the boolean shape predicate.  Grids and vector fields
    are handled by the code plane by plane with the same functions, so every statement applies to
    each plane (the pairing is exercised by the KGrid correspondence cases). *)
-From Coq Require Import List Arith Bool Permutation Sorting.Sorted.
+From Coq Require Import List Arith Bool Permutation Sorting.Sorted ZArith.
 From PAV Require Import Model.C01 Proofs.C01.
 Import ListNotations.
 
@@ -76,6 +76,83 @@ Theorem C01_1d_native_slim_native : forall (A : Type) (zero : A) r (v : list A),
   length v = length r -> native_from_1d zero r (slim_from_1d r v) = zero_masked_1d zero r v.
 Proof. exact @native_slim_roundtrip_1d. Qed.
 
+(* ---------------- phase 2: objects with a history ----------------
+   [obs_slim] / [obs_native] are what `.slim` / `.native` return for an object whose stored array is [f]
+   (the accessors rebuild through convert_array_2d from the CURRENT stored array); [wfb] is the shape predicate
+   of a stored array (slim: one entry per unmasked pixel; native: the mask's shape) -- nothing is assumed about
+   the values at masked positions. *)
+Theorem C01_reading_a_stored_native : forall (A : Type) (zero : A) (m : mask) (n : list (list A)) H W,
+  rectb H W m = true -> rectb H W n = true -> 0 < H ->
+  obs_slim zero m (Native n) = map (get2 zero n) (native_for_slim m) /\
+  obs_native zero m (Native n) = zero_masked zero m n.
+Proof. exact @obs_of_stored_native. Qed.
+Theorem C01_reading_a_stored_slim : forall (A : Type) (zero : A) (m : mask) (s : list A),
+  obs_slim zero m (Slim s) = s /\ obs_native zero m (Slim s) = native_from zero m s.
+Proof. exact @obs_of_stored_slim. Qed.
+(* whatever is stored: native reading = scatter of the slim reading (so: value k at the k-th unmasked pixel, zero at
+   masked pixels, by C01_native_value_at_kth_unmasked / C01_native_masked_is_zero; restated below) *)
+Theorem C01_reading_native_is_scatter_of_slim : forall (A : Type) (zero : A) (m : mask) (f : form) H W,
+  rectb H W m = true -> 0 < H -> wfb m H W f = true ->
+  obs_native zero m f = native_from zero m (obs_slim zero m f) /\ length (obs_slim zero m f) = count m.
+Proof. exact @obs_native_is_scatter_of_obs_slim. Qed.
+Theorem C01_reading_masked_is_zero : forall (A : Type) (zero : A) (m : mask) (f : form) H W p,
+  rectb H W m = true -> 0 < H -> wfb m H W f = true -> mget m p = true -> get2 zero (obs_native zero m f) p = zero.
+Proof. exact @obs_native_masked_is_zero. Qed.
+Theorem C01_reading_kth_unmasked : forall (A : Type) (zero : A) (m : mask) (f : form) H W k d,
+  rectb H W m = true -> 0 < H -> wfb m H W f = true -> k < count m ->
+  get2 zero (obs_native zero m f) (nth k (native_for_slim m) d) = nth k (obs_slim zero m f) zero.
+Proof. exact @obs_native_at_kth_unmasked. Qed.
+(* .native / .slim chains and re-construction from an existing object do not change what is read *)
+Theorem C01_reading_after_convert : forall (A : Type) (zero : A) (m : mask) (f : form) sn H W,
+  rectb H W m = true -> 0 < H -> wfb m H W f = true ->
+  obs_slim zero m (convert zero m f sn) = obs_slim zero m f /\
+  obs_native zero m (convert zero m f sn) = obs_native zero m f.
+Proof. exact @obs_of_convert. Qed.
+(* arithmetic on the stored array (arr + c, c - arr, ...): slim reading is mapped, native reading is mapped and re-zeroed *)
+Theorem C01_reading_after_arithmetic : forall (A : Type) (zero : A) (g : A -> A) (m : mask) (f : form) H W,
+  rectb H W m = true -> 0 < H -> wfb m H W f = true ->
+  obs_slim zero m (fmap g f) = map g (obs_slim zero m f) /\
+  obs_native zero m (fmap g f) = zero_masked zero m (map (map g) (obs_native zero m f)).
+Proof. exact @obs_of_fmap. Qed.
+(* an in-place assignment to a masked entry of a natively stored array is never visible *)
+Theorem C01_masked_assignment_invisible : forall (A : Type) (zero : A) (m : mask) (n : list (list A)) p v H W,
+  rectb H W m = true -> rectb H W n = true -> 0 < H -> mget m p = true ->
+  obs_slim zero m (Native (upd2 n p v)) = obs_slim zero m (Native n) /\
+  obs_native zero m (Native (upd2 n p v)) = obs_native zero m (Native n).
+Proof. exact @set_masked_entry_invisible. Qed.
+(* every reading along ANY history of arithmetic / with_new_array / re-construction / element assignment / accessor steps *)
+Theorem C01_history_readings : forall (A : Type) (zero : A) (m : mask) H W, rectb H W m = true -> 0 < H ->
+  forall ops (f : form), wfb m H W f = true -> forallb (hop_ok m H W) ops = true ->
+  forall so, In so (run_hist zero m f ops) ->
+    snd so = native_from zero m (fst so) /\ length (fst so) = count m.
+Proof. exact @history_readings. Qed.
+(* 1-D objects read as the one-row 2-D objects *)
+Theorem C01_1d_reading_is_one_row : forall (A : Type) (zero : A) (r : list bool) (f : form1),
+  match f with Slim1 _ => True | Native1 n => length n = length r end ->
+  obs_slim_1d zero r f = obs_slim zero [r] (lift1 f) /\ [obs_native_1d zero r f] = obs_native zero [r] (lift1 f).
+Proof. exact @obs_1d_is_one_row. Qed.
+
+(* ---------------- phase 2: a Mask2D edited in place ---------------- *)
+Theorem C01_mask_after_edit : forall (m : mask) p b q H W,
+  rectb H W m = true -> fst p < H -> snd p < W ->
+  mget (mset m p b) q = if pair_eqb q p then b else mget m q.
+Proof. exact mget_mset. Qed.
+Theorem C01_indexes_after_edit : forall (m : mask) p b H W,
+  rectb H W m = true -> 0 < H -> fst p < H -> snd p < W ->
+  native_for_slim (mset m p b) = filter (fun q => negb (if pair_eqb q p then b else mget m q)) (all_coords H W).
+Proof. exact indexes_after_edit. Qed.
+(* every reading along a history of edits / copies / replacements / inversions is the specification of the mask held then *)
+Theorem C01_mask_history_readings : forall (n : zgrid) H W, 0 < H -> rectb H W n = true ->
+  forall ops (m : mask), rectb H W m = true -> forallb (mop_ok H W) ops = true ->
+  run_mhist n m ops = map (mobs n) (mstates m ops) /\
+  forall m', In m' (mstates m ops) ->
+    rectb H W m' = true /\
+    native_for_slim m' = unmasked_spec m' /\
+    mask_slim_indexes m' false = flat_filter m' false /\ mask_slim_indexes m' true = flat_filter m' true /\
+    map (fun p => fst p * W + snd p) (native_for_slim m') = mask_slim_indexes m' false /\
+    slim_from m' n = map (get2 0%Z n) (unmasked_spec m').
+Proof. exact mask_history_readings. Qed.
+
 (* non-vacuity: a 3x4 mask with a hole, an isolated last-column pixel and an outer-ring pixel *)
 Example C01_hyps_satisfiable :
   let m := [[false; true; true; false]; [true; false; true; true]; [true; true; false; false]] in
@@ -83,6 +160,21 @@ Example C01_hyps_satisfiable :
   native_for_slim m = [(0, 0); (0, 3); (1, 1); (2, 2); (2, 3)] /\
   native_from 0 m [7; 8; 9; 10; 11] = [[7; 0; 0; 8]; [0; 9; 0; 0]; [0; 0; 10; 11]] /\
   mask_slim_indexes m false = [0; 3; 5; 10; 11].
+Proof. vm_compute. repeat split. Qed.
+(* non-vacuity, phase 2: a natively stored array with garbage at the masked pixels, followed through c - arr, an
+   assignment to a masked entry, .native, with_new_array(raw); every step is admissible and the last native reading
+   has zeros at the masked pixels; a mask history with an in-place edit, a copy and an inversion *)
+Example C01_history_hyps_satisfiable :
+  let m := [[false; true; true]; [true; false; false]] in
+  let f := Native [[1; 50; 60]; [70; 2; 3]]%Z in
+  let ops := [HMap (fun x => 3 - x)%Z; HSet 0 0 1 9%Z; HNative; HNew (Native [[4; 5; 6]; [7; 8; 9]]%Z)] in
+  rectb 2 3 m = true /\ wfb m 2 3 f = true /\ forallb (hop_ok m 2 3) ops = true /\
+  run_hist 0%Z m f ops =
+    [([1; 2; 3], [[1; 0; 0]; [0; 2; 3]]); ([2; 1; 0], [[2; 0; 0]; [0; 1; 0]]); ([2; 1; 0], [[2; 0; 0]; [0; 1; 0]]);
+     ([2; 1; 0], [[2; 0; 0]; [0; 1; 0]]); ([4; 8; 9], [[4; 0; 0]; [0; 8; 9]])]%Z /\
+  forallb (mop_ok 2 3) [MSet 0 1 false; MCopy; MInvert] = true /\
+  map (@native_for_slim) (mstates m [MSet 0 1 false; MCopy; MInvert]) =
+    [[(0, 0); (1, 1); (1, 2)]; [(0, 0); (0, 1); (1, 1); (1, 2)]; [(0, 0); (0, 1); (1, 1); (1, 2)]; [(0, 2); (1, 0)]].
 Proof. vm_compute. repeat split. Qed.
 
 Print Assumptions C01_native_for_slim_is_rowmajor_unmasked. Print Assumptions C01_slim_is_rowmajor_gather.
@@ -94,3 +186,10 @@ Print Assumptions C01_index_lists_partition. Print Assumptions C01_index_lists_i
 Print Assumptions C01_slim_index_k_is_kth_unmasked. Print Assumptions C01_1d_native_is_one_row.
 Print Assumptions C01_1d_slim_is_one_row. Print Assumptions C01_1d_slim_native_slim.
 Print Assumptions C01_1d_native_slim_native.
+Print Assumptions C01_reading_a_stored_native. Print Assumptions C01_reading_a_stored_slim.
+Print Assumptions C01_reading_native_is_scatter_of_slim. Print Assumptions C01_reading_masked_is_zero.
+Print Assumptions C01_reading_kth_unmasked. Print Assumptions C01_reading_after_convert.
+Print Assumptions C01_reading_after_arithmetic. Print Assumptions C01_masked_assignment_invisible.
+Print Assumptions C01_history_readings. Print Assumptions C01_1d_reading_is_one_row.
+Print Assumptions C01_mask_after_edit. Print Assumptions C01_indexes_after_edit.
+Print Assumptions C01_mask_history_readings.
